@@ -158,6 +158,11 @@ func (r *rawResponseWriter) finish(snapshotHeaders http.Header) {
 	case *conformancev1.RawHTTPResponse_Stream:
 		_ = internal.WriteRawStreamContents(contents.Stream, r.respWriter)
 	}
+	// The headers have been sent by now. A trailer that shares its name with one
+	// of them must not repeat the header's values, so remove those from the map.
+	for _, hdr := range resp.Trailers {
+		r.respWriter.Header().Del(hdr.Name)
+	}
 	internal.AddTrailers(resp.Trailers, r.respWriter.Header())
 }
 
